@@ -240,7 +240,7 @@ func (g *c15gen) validValue(kind string) string {
 	}
 	switch kind {
 	case "string":
-		return []string{"v", "hello world", "a.b.c", "x=y", "UPPER", "with,comma", "uni-ü", "1234", "true", "-", `C:\temp\new`, `a\\b`, `say "hi"`, `tab\there`, `back\/slash`, `{brace}`}[r.IntN(16)]
+		return []string{"v", "hello world", "a.b.c", "x=y", "UPPER", "with,comma", "uni-ü", "1234", "true", "-", `C:\temp\new`, `a\\b`, `say "hi"`, `tab\there`, `back\/slash`, `{brace}`, "{}", "[]", "<nil>"}[r.IntN(19)]
 	case "dir":
 		return filepath.Join(g.scratch, []string{"d1", "d2", "d3"}[r.IntN(3)])
 	case "fname":
@@ -461,8 +461,8 @@ func (g *c15gen) gen() *c15cfg {
 					if v.viaProp != "" {
 						delete(c.props, v.viaProp)
 					}
-					v.viaProp = "absent-prop"
-					c.errClass, c.errDetail = "missing-property", in.name+"."+a.name
+					v.viaProp = []string{"absent-prop", "appender", "logger", "appender." + c.appenders[0].name}[r.IntN(4)] // absent, or only an inner node of the tree
+					c.errClass, c.errDetail = "missing-property", in.name+"."+a.name+" -> ${"+v.viaProp+"}"
 					break
 				}
 			}
